@@ -74,6 +74,15 @@ impl Ctx<'_> {
         }
     }
 
+    /// either public constructor
+    fn new_stmt(&mut self) -> Stmt {
+        if self.rng.pct(30) {
+            Stmt::NewDefault
+        } else {
+            Stmt::New
+        }
+    }
+
     fn seg(&mut self) -> String {
         ["a", "b", "inner", "x[0]", "v"][self.rng.below(5)].to_string()
     }
@@ -163,7 +172,7 @@ impl Ctx<'_> {
         if live.is_empty() || hit(12) {
             if self.frames[me].len() < 4 {
                 self.frames[me].push(St::Armed(0));
-                return (Stmt::New, false);
+                return (self.new_stmt(), false);
             }
         }
         if hit(self.cfg.p_panic) {
@@ -193,7 +202,7 @@ impl Ctx<'_> {
         }
         if live.is_empty() {
             self.frames[me].push(St::Armed(0));
-            return (Stmt::New, false);
+            return (self.new_stmt(), false);
         }
         let slot = *self.rng.pick(&live);
         let full = *self.entries(slot) >= 8;
